@@ -10,15 +10,15 @@ THEOREMS = ["closed_form_solves_ode", "closed_form_initial", "ode_solution_uniqu
             "outside_indices_zero", "default_patterns", "reference_encloses_closed_form"]
 EXTRA_PROPS = {"Props.C01b": ["fl_dot_error", "decay_eval_error"],
                "Props.C01c": ["rnd64_std_model", "pf_mul_finite", "pf_add_finite", "bq_of_float_value", "pf_yhat_refines"],
-               "Props.C01d": ["default_round_certificate", "lambda_close_sound", "float_decay_error", "default_float_decay_error"]}
-REQUIRED = ["Props/C01.v", "Props/C01b.v", "Props/C01c.v", "Props/C01d.v", "Model/DecayCheck.v", "Model/FloatDecay.v",
+               "Props.C01d": ["default_round_certificate", "lambda_close_sound", "float_decay_error", "default_float_decay_error"],
+               "Props.C01e": ["default_float_decay_error_ancestors"]}
+REQUIRED = ["Props/C01.v", "Props/C01b.v", "Props/C01c.v", "Props/C01d.v", "Props/C01e.v", "Props/C04s.v", "Model/DecayCheck.v", "Model/FloatDecay.v",
             "Proofs/CertDefault/RoundCert.v", "Proofs/CertDefault/FloatDataCert.v"]
-TRANSLATORS = ["tr_data", "tr_tables", "tr_pure"]
+TRANSLATORS = ["tr_data", "synth_dataset", "tr_data_synth", "tr_tables", "tr_pure"]
 SHAPE_KEYS = ["Inventory::decay", "AbstractInventory::_setup_decay_calc", "AbstractInventory::_perform_decay_calc",
               "AbstractInventory::_convert_decay_time", "load_dataset", "DecayMatricesScipy"]
-PARTIAL = ["default_float_decay_error (Props/C01d.v) proves the forward error for ALL inputs with the bound 1e-11 x ALL initial atoms (+2^-1060); "
-           "the property's sharper 'atoms of that nuclide's ancestors' is decided per case against the PROVED interval enclosure of the exact "
-           "solution (every radionuclide as single parent in the thorough tier)",
+PARTIAL = ["default_float_decay_error_ancestors (Props/C01e.v) proves, for ALL inputs, |result - exact| <= 1e-11 x (atoms of that nuclide's ancestors) + 2^-1060 "
+           "for the shipped data; for other data sets the generic float_decay_error gives the bound from that data set's kernel-computed constants",
            "the theorem is about the primitive-float model Model/FloatDecay.v (tied to the implementation bit for bit per case, with SciPy's accumulation "
            "orders observed) and assumes each stored exponential is within 2^-50 of exp(-lambda t) (libm; checked per case by interval arithmetic)",
            "cumulative_decays has no rounding theorem (C03 is per case)",
@@ -49,6 +49,12 @@ def correspondence(ctx):
                    "Inventory.decay: nuclide set = progeny closure, alphabetical, finite, stable activity exactly 0, every amount within "
                    "1e-11 x (atoms of its ancestors) of the proved enclosure of the exact solution; single parents + mixed inventories in every unit",
                    shard=8)
+    # the same requests against the synthetic data set (states p q r x, other year length, SF, open branches), same model, same bound
+    sn, ss = D.names_of("synth")
+    scases = D.gen_cases(rng, sn, ss, 100, 200 if thorough else 20, "Inventory", ds="synth")
+    D.decay_stream(rng, scases, "check_float_decay Synth", "decay_float_synth", streams, viol, samples,
+                   "as decay_float, on the synthetic data set loaded with load_dataset from files in the library's format",
+                   shard=8, ds="synth", pre=D.PRE.replace("Model.Default", "Model.Default Model.Synth"))
     import corr_floateval as FE
     FE.floateval_stream(rng, 400 if thorough else 40, streams, viol, samples)
     return {"streams": streams, "violations": viol, "samples": samples}
